@@ -6,7 +6,7 @@
 //    is surrounded by 16 guard bytes on both sides (token "guard" is appended to the impl leg when
 //    one of them changed), in the ASan build (-DVERIF_ASAN) there are no guard bytes so that the
 //    sanitizer's red zones start right at first-1 / last;
-//  * the input of from_chars/to_integer/sto* is an exact-size, NOT terminated heap block, the input
+//  * the input of from_chars/to_integer/strto_integer/sto* is an exact-size, NOT terminated heap block, the input
 //    of strto*/ato* an exact-size terminated one (an over-read is an ASan report);
 //  * the builds use -fsanitize=signed-integer-overflow,integer-divide-by-zero with
 //    -fsanitize-undefined-trap-on-error: executing such an operation raises SIGILL/SIGFPE, which is
@@ -384,18 +384,22 @@ void do_to_string(Toks& in, Out& impl, Out& ref)
 }
 
 // ---------------------------------------------------------------- strto*, sto*, ato*
+// set by run_case for the "<op>_n" operations: the call passes a null end pointer / pos
+bool g_null_out = false;
+
 template <typename R, typename EtlF, typename LibF>
 void do_strto(Toks& in, Out& impl, Out& ref, EtlF etlf, LibF libf)
 {
     int base   = static_cast<int>(in.num());
     auto codes = in.list();
     Text t(codes, true);
+    bool null_out = g_null_out;
     run_impl(impl, [&](Out& o) {
         char const* e = nullptr;
-        R v           = etlf(t.p, &e, base);
+        R v           = etlf(t.p, null_out ? nullptr : &e, base);
         o.tok("v");
         val(o, v);
-        o.num(e - t.p);
+        if (!null_out) { o.num(e - t.p); }
     });
     if (base == 0 || (base >= 2 && base <= 36)) {
         char* e = nullptr;
@@ -403,7 +407,46 @@ void do_strto(Toks& in, Out& impl, Out& ref, EtlF etlf, LibF libf)
         R v     = libf(t.p, &e, base);
         ref.tok("v");
         val(ref, v);
-        ref.num(e - t.p);
+        if (!null_out) { ref.num(e - t.p); }
+    }
+}
+
+// detail::strto_integer<T> called directly (not terminated input): error member, end, value.
+// Reference: glibc strtol/strtoul family for the 64-bit types (errno ERANGE = overflow, end == str
+// = no conversion); for int / unsigned the reference leg is left to the spec.
+template <typename T>
+void do_strto_integer(Toks& in, Out& impl, Out& ref)
+{
+    int base   = static_cast<int>(in.num());
+    auto codes = in.list();
+    {
+        Text t(codes, false);
+        run_impl(impl, [&](Out& o) {
+            auto r = etl::detail::strto_integer<T>(etl::string_view{t.p, t.n}, base);
+            o.tok(r.error == etl::strings::to_integer_error::none
+                      ? "ok"
+                      : (r.error == etl::strings::to_integer_error::overflow ? "overflow" : "invalid"));
+            o.num(r.end - t.p);
+            val(o, r.value);
+        });
+    }
+    if constexpr (sizeof(T) == 8) {
+        bool has_nul = false;
+        for (auto c : codes) { has_nul = has_nul || c == 0; }
+        if (!has_nul && (base == 0 || (base >= 2 && base <= 36))) {
+            Text t(codes, true);
+            char* e = nullptr;
+            errno   = 0;
+            T v { };
+            if constexpr (std::is_signed_v<T>) {
+                v = static_cast<T>(std::strtoll(t.p, &e, base));
+            } else {
+                v = static_cast<T>(std::strtoull(t.p, &e, base));
+            }
+            ref.tok(e == t.p ? "invalid" : (errno == ERANGE ? "overflow" : "ok"));
+            ref.num(e - t.p);
+            val(ref, v);
+        }
     }
 }
 
@@ -413,12 +456,13 @@ void do_sto(Toks& in, Out& impl, Out& ref, EtlF etlf, StdF stdf)
     int base   = static_cast<int>(in.num());
     auto codes = in.list();
     Text t(codes, false);
+    bool null_out = g_null_out;
     run_impl(impl, [&](Out& o) {
         etl::size_t pos = 99;
-        R v             = etlf(etl::string_view{t.p, t.n}, &pos, base);
+        R v             = etlf(etl::string_view{t.p, t.n}, null_out ? nullptr : &pos, base);
         o.tok("v");
         val(o, v);
-        o.num(static_cast<i64>(pos));
+        if (!null_out) { o.num(static_cast<i64>(pos)); }
     });
     if (base == 0 || (base >= 2 && base <= 36)) {
         try {
@@ -427,7 +471,7 @@ void do_sto(Toks& in, Out& impl, Out& ref, EtlF etlf, StdF stdf)
             Out r;
             r.tok("v");
             val(r, v);
-            r.num(static_cast<i64>(pos));
+            if (!null_out) { r.num(static_cast<i64>(pos)); }
             ref = r;
         } catch (std::exception const&) {
             // std reports an error by throwing: no defined (value, pos) -> na
@@ -458,11 +502,26 @@ void do_ato(Toks& in, Out& impl, Out& ref, EtlF etlf, LibF strto)
 
 bool vh::run_case(std::string const& opname, Toks& in, Out& impl, Out& ref)
 {
-    // "<op>_kf" / "<op>_ovf": the same operation on an input inside a recorded known-finding region
-    auto op = opname;
-    for (char const* suffix : {"_kf", "_ovf"}) {
+    // "<op>_ovf": the same operation on an input inside the recorded known-finding region;
+    // "<op>_n": strto*/sto* called with a null end pointer / pos
+    auto op    = opname;
+    g_null_out = false;
+    for (char const* suffix : {"_ovf", "_n"}) {
         auto n = std::strlen(suffix);
-        if (op.size() > n && op.compare(op.size() - n, n, suffix) == 0) { op.resize(op.size() - n); }
+        if (op.size() > n && op.compare(op.size() - n, n, suffix) == 0) {
+            op.resize(op.size() - n);
+            if (std::strcmp(suffix, "_n") == 0) { g_null_out = true; }
+        }
+    }
+    if (op == "strto_integer") {
+        auto ty = in.str();
+        if (ty == "i") { do_strto_integer<int>(in, impl, ref); return true; }
+        if (ty == "u") { do_strto_integer<unsigned>(in, impl, ref); return true; }
+        if (ty == "l") { do_strto_integer<long>(in, impl, ref); return true; }
+        if (ty == "ul") { do_strto_integer<unsigned long>(in, impl, ref); return true; }
+        if (ty == "ll") { do_strto_integer<long long>(in, impl, ref); return true; }
+        if (ty == "ull") { do_strto_integer<unsigned long long>(in, impl, ref); return true; }
+        return false;
     }
     if (op == "to_chars" || op == "to_chars_buf") {
         auto ty = in.str();
